@@ -200,7 +200,7 @@ def overflow_regime(expected, lo, hi):
     return any(math.trunc(e) > hi or math.trunc(e) < lo for e in expected)
 
 
-def wrap_explains(got, expected, bits, lo, cast_many=None, near=1e-9):
+def wrap_explains(got, expected, bits, lo, cast_many=None, near=1e-9, slack=0.0):
     """Mechanism test in the overflow regime when no exception was raised: every returned element is the float the
     function computed - some value within near*max(1,|e|) of the expected e (the tolerance of the clause; for e ~ 1e18 that
     is far more than one unit) - truncated and stored into the fixed-width integer array, i.e. wrapped modulo 2**bits into
@@ -208,13 +208,15 @@ def wrap_explains(got, expected, bits, lo, cast_many=None, near=1e-9):
     float->integer conversion stores at that position: cast_many(list of floats) -> list of stored integers performs the
     same conversion on a whole array of the same length (vectorised conversions treat out-of-range values differently
     from the scalar tail, so the position matters). Elements that fit the dtype therefore still equal trunc(expected)
-    (+-1 only next to an integer), exactly as in the truncation regime."""
+    (+-1 only next to an integer), exactly as in the truncation regime. slack = the absolute tolerance of the clause
+    (rtol * n * max|x|^p): the float the function computed may differ from e by that much before it is stored (its padded
+    triangle sums cancel at the scale of the whole series, not of the single entry)."""
     if len(got) != len(expected):
         return False
     m = 1 << bits
     t0s, t1s = [], []
     for e in expected:
-        d = near * max(1.0, abs(e))
+        d = max(near * max(1.0, abs(e)), slack)
         t0s.append(math.trunc(e - d))
         t1s.append(math.trunc(e + d))
     c0 = c1 = None
